@@ -721,6 +721,9 @@ func foldNumP(foldProg *kit.Prog, info *types.Info, e ast.Expr, subst func(ast.E
 		if tv, ok := info.Types[x]; ok && tv.Value != nil {
 			return tv.Value, true
 		}
+		if x == ast.Expr(kit.EmptyStringLit) {
+			return constant.MakeString(""), true
+		}
 		switch y := x.(type) {
 		case *ast.BinaryExpr:
 			a, ok1 := ev(y.X)
